@@ -212,6 +212,12 @@ uint32_t vp_param(uint32_t i) { return i == 0 ? VP_P0 : i == 1 ? VP_P1 : i == 2 
  * never a symbolic mix (CBMC then resolves virtual calls on it) */
 uint32_t vp_choice(void) { return vp_param(1); }
 
+#ifdef VP_REAL
+/* the real build has no generated snapshot of the unit's mutable globals */
+uint64_t vp_globals_size(void) { return 0; }
+void vp_globals_snapshot(char* dst) { (void)dst; }
+#endif
+
 /* entry */
 void vp_run_ctors(void);
 #if defined(VP_REAL)
